@@ -32,3 +32,18 @@ package keeper
 //@   ensures[C17] len(g.ExecutorGenesis.PausedActionIds) == enumLenI32(aset(k.executor)) && forall j int trigger(g.ExecutorGenesis.PausedActionIds[j]) :: 0 <= j && j < len(g.ExecutorGenesis.PausedActionIds) ==> g.ExecutorGenesis.PausedActionIds[j] == enumAtI32(aset(k.executor), j)
 //@   ensures[C17] len(g.ForwarderGenesis.PausedProtocolIds) == enumLenI32(pset(k.forwarder)) && len(g.ForwarderGenesis.PausedCrossChainIds) == enumLenP(cset(k.forwarder))
 //@   ensures[C17] len(g.DispatcherGenesis.DispatchedAmounts) == enumLenQ(amap(k.dispatcher)) && len(g.DispatcherGenesis.DispatchedCounts) == enumLenQC(cmap(k.dispatcher))
+
+// ---------------------------------------------------------------------------------------------
+// Wiring (C10, C08, C09): one keeper, one instance of each component. The authority is the string the
+// keeper was built with; the forwarder and the executor whose pause sets the message servers change are
+// the very objects the dispatcher hands packets to, and the adapter dispatches through that dispatcher -
+// a second instance anywhere would make a pause that is stored but not enforced.
+// ---------------------------------------------------------------------------------------------
+//@ macro wired(k) = k.executor != nil && k.forwarder != nil && k.dispatcher != nil && k.adapter != nil && k.dispatcher.ForwardingHandler == box(k.forwarder, "*keeper/component/forwarder.Forwarder") && k.dispatcher.ActionHandler == box(k.executor, "*keeper/component/executor.Executor") && k.adapter.dispatcher == box(k.dispatcher, "*keeper/component/dispatcher.Dispatcher")
+//@ func (k *Keeper) setComponents(cdc, logger, eventService, sb, bankKeeper) (err)
+//@   requires[inv] k != nil
+//@   modifies k.executor, k.forwarder, k.dispatcher, k.adapter
+//@   ensures[C08,C09] err == nil ==> wired(k)
+//@ func NewKeeper(cdc, addressCdc, logger, eventService, storeService, authority, bankKeeper) (result)
+//@   ensures[C10] result != nil && result.authority == authority
+//@   ensures[C08,C09] result != nil && wired(result)
